@@ -36,7 +36,7 @@ from dulwich.object_store import (
     PackBasedObjectStore,
     read_packs_file,
 )
-from dulwich.objects import ShaFile
+from dulwich.objects import ZERO_SHA, ShaFile
 from dulwich.pack import (
     Pack,
     PackData,
@@ -399,8 +399,21 @@ class TransportRefsContainer(RefsContainer):
         else:
             transport = self.transport
             self._ensure_dir_exists(urlutils.quote_from_bytes(realname))
+        if old_ref is not None and self._current_value(realname) != old_ref:
+            return False
         transport.put_bytes(urlutils.quote_from_bytes(realname), new_ref + b"\n")
         return True
+
+    def _current_value(self, name):
+        """Return the value of a ref (loose first, then packed), without
+        following it; ZERO_SHA if it does not exist.
+        """
+        orig_ref = self.read_loose_ref(name)
+        if orig_ref is None:
+            # reread packed-refs from disk: the cached copy may be stale
+            self._packed_refs = None
+            orig_ref = self.get_packed_refs().get(name, ZERO_SHA)
+        return orig_ref
 
     def add_if_new(self, name, ref):
         """Add a new reference only if it does not already exist.
@@ -440,6 +453,8 @@ class TransportRefsContainer(RefsContainer):
         :return: True if the delete was successful, False otherwise.
         """
         self._check_refname(name)
+        if old_ref is not None and self._current_value(name) != old_ref:
+            return False
         # may only be packed
         transport = self.worktree_transport if name == b"HEAD" else self.transport
         with contextlib.suppress(NoSuchFile):
